@@ -203,6 +203,58 @@ def main():
         if not bad and ok:
             chk.count("compiler_output_programs")
             chk.held(h(j["hex"]), sample={"compiled_hex": j["hex"][:120] + "..."} if j["id"] % 97 == 0 else None)
+    # blueprint entries written by *another* tool chain: valid script bytes with their correct ledger
+    # hash, but not in the form this toolchain's encoder writes (non-minimal outer CBOR header;
+    # a long byte string inside a Data constant in definite-length form). The reader must either
+    # refuse the entry or reproduce exactly these bytes and this hash when it saves again —
+    # accepting it and then publishing other bytes under another hash moves the script's address.
+    fjobs = []
+    fmeta = {}
+    canon_long = bytes([0x5F, 0x58, 0x40]) + b"\xab" * 64 + bytes([0x46]) + b"\xab" * 6 + b"\xff"
+    foreign_long = bytes([0x58, 0x46]) + b"\xab" * 70
+    carriers = [["con", "data", {"b": "ab" * 70}], ["app", ["lam", ["var", 1]], ["con", "data", {"b": "ab" * 70}]], ["delay", ["con", "data", {"b": "ab" * 70}]]]
+    plain = [G.gen_term(rng, 2 + rng.below(20), names, 0) for _ in range(40 if quick else 600)]
+    cres = common.run_jobs("uplc-run", [{"id": i, "op": "codec", "term": t, "version": [1, 1, 0]} for i, t in enumerate(carriers + plain)])
+    for i, t in enumerate(carriers + plain):
+        r = cres.get(i, {})
+        if "flat" not in r:
+            continue
+        flat = bytes.fromhex(r["flat"])
+        variants = []
+        seg = bytes([len(canon_long)]) + canon_long + b"\x00"
+        if i < len(carriers) and seg in flat:
+            f2 = flat.replace(seg, bytes([len(foreign_long)]) + foreign_long + b"\x00", 1)
+            variants.append(("definite-long-bytes-in-data", cbor_bytes_header(len(f2)) + f2))
+        n = len(flat)
+        if n < 256:
+            variants.append(("non-minimal-header-16", bytes([0x59, 0x00, n]) + flat))
+        variants.append(("non-minimal-header-32", bytes([0x5A]) + n.to_bytes(4, "big") + flat))
+        for label, code in variants:
+            for tag in (1, 2, 3):
+                hsh = hashlib.blake2b(bytes([tag]) + code, digest_size=28).hexdigest()
+                j = {"id": len(fjobs), "op": "json_load", "kind": "program", "text": json.dumps({"compiledCode": code.hex(), "hash": hsh})}
+                fmeta[j["id"]] = (label, tag, code.hex(), hsh, t)
+                fjobs.append(j)
+    fres = common.run_jobs("aiken-run", fjobs)
+    for j in fjobs:
+        label, tag, code, hsh, t = fmeta[j["id"]]
+        r = fres.get(j["id"], {})
+        w = {"entry_form": label, "plutus_version_tag": tag, "compiledCode": code, "hash": hsh, "term": t}
+        chk.count("foreign_entries_judged")
+        if "panic" in r or "died" in r:
+            chk.violation("C08|foreign-blueprint-entry|crash", {**w, "observed": r})
+        elif r.get("loaded") is False:
+            chk.count("foreign_entries_refused")
+            chk.held(h(["foreign", label, tag, code]))
+        elif r.get("loaded") is True:
+            rs = r.get("resaved") or {}
+            if rs.get("compiledCode") != code or rs.get("hash") != hsh:
+                chk.violation(f"C08|foreign-blueprint-entry|accepted-then-saved-with-other-bytes-or-hash|{label}", {**w, "resaved": rs})
+            else:
+                chk.count("foreign_entries_reproduced")
+                chk.held(h(["foreign", label, tag, code]))
+        else:
+            chk.inconc("foreign-entry-no-verdict")
     if not quick:
         # sanitizer lane: Miri on encode/decode round trips (the flat codec does manual bit arithmetic)
         import lanes
@@ -217,7 +269,7 @@ def main():
     ]
     chk.finish(
         rule="boundary constants (64/255/256-byte chunks, 64/128-bit integer edges, Unicode strings, Data in definite/indefinite and int/bignum encodings, every constructor-tag range), every builtin, seeded random programs over all term constructors in versions 1.0.0/1.1.0, and programs compiled by the working tree from the repository's own test sources; distinct = structural hash",
-        floor={"evaluations": 2000, "hashes_checked": 1000, "compiler_output_programs": 20},
+        floor={"evaluations": 2000, "hashes_checked": 1000, "compiler_output_programs": 20, "foreign_entries_judged": 100},
     )
 
 
